@@ -32,12 +32,15 @@
 #include <string.h>
 #include <stdint.h>
 
-/* every time-out and every pacing delay of this harness is multiplied by g_speed (>= 1): the factor is
+/* every time-out of this harness is multiplied by g_speed (>= 1): the factor is
  * measured by props/C13.py with the "calibrate" op on the machine and under the load the check runs on
  * (VDRV_SPEED) and doubled for confirmation re-runs (VDRV_SLOW) */
 static double g_speed = 1.0;
 static int sp(int ms) { double v = ms * g_speed; return v > 2000000000.0 ? 2000000000 : (int)v; }
-#define usleep(x) usleep((useconds_t)((double)(x) * g_speed))
+/* pacing delays and polling intervals are NOT scaled (a healthy run stays short on a slow machine); what is
+ * scaled is every bound after which the harness gives up: sp(N) iterations / milliseconds / seconds.
+ * The windows of the forced schedules grow with the factor, capped at 4x. */
+static useconds_t fsl(int us) { double f = g_speed > 4.0 ? 4.0 : g_speed; return (useconds_t)(us * f); }
 
 #define W 32
 #define H 24
@@ -118,8 +121,8 @@ int __wrap_pthread_mutex_lock(pthread_mutex_t *m) {
     }
     __real_pthread_mutex_unlock(&reg_mx);
     /* forced schedules (replay of the model's refutation witnesses) */
-    if (g_force == 1 && t_role == 3 && ca == 'U') usleep(150000);   /* clientOutput between the state test and LOCK(updateMutex) */
-    if (g_force == 2 && t_role == 0 && ca == 'R') usleep(200000);   /* iterator between reading the pointer and rfbIncrClientRef */
+    if (g_force == 1 && t_role == 3 && ca == 'U') usleep(fsl(150000));   /* clientOutput between the state test and LOCK(updateMutex) */
+    if (g_force == 2 && t_role == 0 && ca == 'R') usleep(fsl(200000));   /* iterator between reading the pointer and rfbIncrClientRef */
   }
   r = __real_pthread_mutex_lock(m);
   if (t_lib && m != &reg_mx && t_nheld < MAXHELD) t_held[t_nheld++] = m;
@@ -133,9 +136,9 @@ int __wrap_pthread_mutex_unlock(pthread_mutex_t *m) {
   { int cu = 0, su;
     if (g_force == 1 && t_lib && t_role == 0 && m != &reg_mx) { __real_pthread_mutex_lock(&reg_mx); cu = classify(m, &su); __real_pthread_mutex_unlock(&reg_mx); }
     i = __real_pthread_mutex_unlock(m);
-    if (cu == 'U') usleep(50000);       /* rfbCloseClient between UNLOCK(updateMutex) and state = RFB_SHUTDOWN */
+    if (cu == 'U') usleep(fsl(50000));       /* rfbCloseClient between UNLOCK(updateMutex) and state = RFB_SHUTDOWN */
   }
-  if (g_force == 3 && t_lib && t_role == 3 && S && m == &S->cursorMutex) usleep(120000);   /* between rfbShowCursor and rfbHideCursor */
+  if (g_force == 3 && t_lib && t_role == 3 && S && m == &S->cursorMutex) usleep(fsl(120000));   /* between rfbShowCursor and rfbHideCursor */
   if (t_lib && m != &reg_mx) perturb();
   return i;
 }
@@ -162,7 +165,7 @@ ssize_t __wrap_write(int fd, const void *b, size_t n) {
   r = __real_write(fd, b, n);
   if (t_lib && t_role == 3 && (r < (ssize_t)n)) g_write_blocked++;
   /* rfbShutdownServer between rfbCloseClient's notification and its read of currentCl->client_thread */
-  if (g_force == 4 && t_lib && t_role == 0 && n == 1) usleep(200000);
+  if (g_force == 4 && t_lib && t_role == 0 && n == 1) usleep(fsl(200000));
   return r;
 }
 
@@ -220,10 +223,10 @@ enum { K_STAY, K_ABRUPT, K_SLOW, K_ABANDON, K_CYCLE };
 
 static int rd_full(int fd, void *buf, size_t n, int ms) {
   size_t off = 0;
-  if (ms >= 2000 && ms < 10000) ms = 10000;      /* a give-up time-out (not a polling interval) is never below 10 s */
+  if (ms >= 2000) { if (ms < 10000) ms = 10000; ms = sp(ms); }   /* a give-up time-out (not a polling interval): never below 10 s, scaled */
   while (off < n) {
     struct pollfd pf = {fd, POLLIN, 0};
-    int r = poll(&pf, 1, sp(ms));
+    int r = poll(&pf, 1, ms);
     ssize_t k;
     if (r <= 0) { if (getenv("VDRV_TRACE")) fprintf(stderr, "rd_full poll=%d errno=%d off=%zu n=%zu\n", r, errno, off, n); return -1; }
     k = __real_read(fd, (char *)buf + off, n - off);
@@ -333,7 +336,7 @@ static void *client_main(void *p) {
     }
   }
   /* after the application's last change: keep asking until the picture is the final one */
-  for (i = 0; i < 200 && !c->converged && c->ok; i++) {
+  for (i = 0; i < sp(200) && !c->converged && c->ok; i++) {
     int j, r;
     cl_fur(fd, 1);
     r = cl_read_msg(fd, c, 100);
@@ -385,9 +388,9 @@ static int run_stress(unsigned seed, int ypct, int nstay, int nabrupt, int nslow
   for (i = 0; i < ncycles; i++) {
     cli_t c; memset(&c, 0, sizeof c); c.kind = K_CYCLE; c.port = port; c.id = i; c.stop = &stop;
     client_main(&c);
-    { int w = 0; while (g_gone < g_new && w++ < 20000) usleep(500); }
+    { int w = 0; while (g_gone < g_new && w++ < sp(20000)) usleep(500); }
   }
-  { int w = 0; while ((g_gone < g_new || g_new < ncycles) && w++ < 20000) usleep(500); }
+  { int w = 0; while ((g_gone < g_new || g_new < ncycles) && w++ < sp(20000)) usleep(500); }
   /* listener still runs; no client is connected now.  A client whose teardown did not complete within
      the wait (its input thread blocked in THREAD_JOIN) still has its two threads alive. */
   stuck = g_new - g_gone; cycles_done = g_gone;
@@ -404,7 +407,7 @@ static int run_stress(unsigned seed, int ypct, int nstay, int nabrupt, int nslow
      open client whatever its protocol state, which would corrupt a handshake in progress */
   for (i = 0; i < n; i++) { cl[i].port = port; cl[i].id = i; cl[i].stop = &stop;
     if (cl[i].kind == K_STAY || cl[i].kind == K_SLOW) __real_pthread_create(&th[i], NULL, client_main, &cl[i]); }
-  { int w = 0, all; do { all = 1; for (i = 0; i < n; i++) if ((cl[i].kind == K_STAY || cl[i].kind == K_SLOW) && !cl[i].ok) all = 0; usleep(1000); } while (!all && w++ < 15000); }
+  { int w = 0, all; do { all = 1; for (i = 0; i < n; i++) if ((cl[i].kind == K_STAY || cl[i].kind == K_SLOW) && !cl[i].ok) all = 0; usleep(1000); } while (!all && w++ < sp(15000)); }
   for (i = 0; i < n; i++) if (!(cl[i].kind == K_STAY || cl[i].kind == K_SLOW)) __real_pthread_create(&th[i], NULL, client_main, &cl[i]);
   for (i = 0; i < 150; i++) {
     int j, x = (int)(rnd() % W), y = (int)(rnd() % H);
@@ -444,7 +447,7 @@ static int run_stress(unsigned seed, int ypct, int nstay, int nabrupt, int nslow
        output thread in WAIT - only rfbCloseClient's notifications can end them) */
     for (k = 0; k < 3; k++) { memset(&late[k], 0, sizeof late[k]); late[k].kind = K_STAY; late[k].port = port; late[k].id = 100 + k; late[k].stop = &never;
                               __real_pthread_create(&lt[k], NULL, k == 2 ? idle_client : client_main, &late[k]); }
-    { int w = 0; while (!late[2].ok && w++ < 10000) usleep(1000); }
+    { int w = 0; while (!late[2].ok && w++ < sp(10000)) usleep(1000); }
     usleep(20000);
     LIBCALL(rfbShutdownServer(S, TRUE));
     never = 1;
@@ -452,7 +455,7 @@ static int run_stress(unsigned seed, int ypct, int nstay, int nabrupt, int nslow
     for (k = 0; k < 3; k++) __real_pthread_join(lt[k], NULL);
   }
   phase("cleanup", 25);
-  { int w = 0; while (g_gone < g_new && w++ < 2000) usleep(500); }
+  { int w = 0; while (g_gone < g_new && w++ < sp(2000)) usleep(500); }
   LIBCALL(rfbScreenCleanup(S));
   alarm(0);
   printf("result hang=0 new=%d gone=%d dupgone=%d cycles=%d stuck_after_cycles=%d zombies_after_cycles=%d stay=%d stay_ok=%d converged=%d created=%d joined=%d\n",
@@ -511,13 +514,13 @@ static int run_forced(int which) {
     for (i = 0; i < W * H; i++) fb[i] = 0x00202020u;
     LIBCALL(rfbRunEventLoop(S, -1, TRUE));
     for (i = 0; i < 2; i++) { memset(&c2[i], 0, sizeof c2[i]); c2[i].port = port; c2[i].stop = &stop; __real_pthread_create(&t2[i], NULL, fur_client, &c2[i]); }
-    { int w = 0; while (!(c2[0].ok && c2[1].ok) && w++ < 10000) usleep(1000); }
+    { int w = 0; while (!(c2[0].ok && c2[1].ok) && w++ < sp(10000)) usleep(1000); }
     usleep(50000);
     phase("cursor", 15);
     for (i = 0; i < W * H; i++) if (fb[i] != 0x00202020u) diff++;
     printf("#cursor before=%d\n", diff);
     g_force = 3; g_go = 1;
-    usleep(1500000);
+    usleep(fsl(1500000));
     g_force = 0; stop = 1;
     for (i = 0; i < 2; i++) __real_pthread_join(t2[i], NULL);
     usleep(100000);
@@ -530,7 +533,7 @@ static int run_forced(int which) {
   LIBCALL(rfbRunEventLoop(S, -1, TRUE));
   memset(&c, 0, sizeof c); c.port = port; c.stop = &stop;
   __real_pthread_create(&th, NULL, idle_client, &c);
-  { int w = 0; while (!c.ok && w++ < 10000) usleep(1000); }
+  { int w = 0; while (!c.ok && w++ < sp(10000)) usleep(1000); }
   usleep(100000);
   if (which == 4) {
     phase("shutdown", 10);
@@ -639,7 +642,7 @@ static int pc_settle(pcli_t *c, const uint32_t *fb, int min_updates, int ms) {
   for (;;) {
     int r;
     if (c->updates - u0 >= min_updates && pc_diff(c, fb) == 0) return 0;
-    if (waited >= ms) return -1;
+    if (waited >= sp(ms)) return -1;
     r = pc_read_msg(c, 50);
     if (r == -2 || r == -3) return -2;
     if (r == -1) waited += 50;
@@ -736,11 +739,11 @@ out:
   printf("presult mode=phases phases=%d phasefails=%d failed=[%s]\n", nph, fails, failtxt);
   fflush(stdout);
   for (k = 0; k < 4; k++) close(c[k].fd);
-  { int w = 0; while (g_gone < g_new && w++ < 2000) usleep(500); }
+  { int w = 0; while (g_gone < g_new && w++ < sp(2000)) usleep(500); }
   phase("shutdown", 25);
   LIBCALL(rfbShutdownServer(S, TRUE));
   phase("cleanup", 25);
-  { int w = 0; while (g_gone < g_new && w++ < 2000) usleep(500); }
+  { int w = 0; while (g_gone < g_new && w++ < sp(2000)) usleep(500); }
   LIBCALL(rfbScreenCleanup(S));
   alarm(0);
   printf("result hang=0 mode=phases phases=%d phasefails=%d failed=[%s] new=%d gone=%d\n", nph, fails, failtxt, g_new, g_gone);
@@ -757,8 +760,9 @@ out:
 static int sock_alive(int fd, int ms) {           /* 1 = open and served, 0 = closed by the server, -1 = silent */
   unsigned char m[10] = {3, 0, 0, 0, 0, 0, 0, 4, 0, 4}; unsigned char h[16]; static unsigned char px[W * H * 4]; int waited = 0;
   if (wr_full(fd, m, 10)) return 0;
+  ms = sp(ms);
   while (waited < ms) {
-    struct pollfd pf = {fd, POLLIN, 0}; int r = poll(&pf, 1, sp(50)), n, i; ssize_t k;
+    struct pollfd pf = {fd, POLLIN, 0}; int r = poll(&pf, 1, 50), n, i; ssize_t k;
     if (r <= 0) { waited += 50; continue; }
     k = __real_read(fd, h, 1);
     if (k <= 0) return 0;
@@ -779,7 +783,7 @@ static int sock_alive(int fd, int ms) {           /* 1 = open and served, 0 = cl
   }
   return -1;
 }
-static int wait_gone(int target, int ms) { int w = 0; while (g_gone < target && w < ms) { usleep(1000); w++; } return g_gone >= target; }
+static int wait_gone(int target, int ms) { int w = 0; ms = sp(ms); while (g_gone < target && w < ms) { usleep(1000); w++; } return g_gone >= target; }
 
 static int run_policy(unsigned seed, int ypct, int always, int never, int dd, int bshared, int route) {
   int argc = 0, port, fa, fb_, fc, exclusive, a_st, b_st, ok_pol, tore = 1, survivor_fd, survivor_slot; uint32_t *fbuf;
@@ -822,7 +826,7 @@ static int run_policy(unsigned seed, int ypct, int always, int never, int dd, in
   phase("shutdown", 25);
   LIBCALL(rfbShutdownServer(S, TRUE));
   phase("cleanup", 25);
-  { int w = 0; while (g_gone < g_new && w++ < 2000) usleep(500); }
+  { int w = 0; while (g_gone < g_new && w++ < sp(2000)) usleep(500); }
   LIBCALL(rfbScreenCleanup(S));
   alarm(0);
   close(fa); close(fb_); if (fc >= 0) close(fc);
@@ -915,7 +919,7 @@ static int run_fragment(unsigned seed, int ypct) {
   }
   /* the peer asks again (incrementally) until it shows the application's framebuffer */
   phase("fragment-settle", 90);
-  for (rounds = 0; rounds < 60; rounds++) {
+  for (rounds = 0; rounds < sp(60); rounds++) {
     unsigned char m[10] = {3, 1, 0, 0, 0, 0, (FW >> 8), (FW & 255), (FH >> 8), (FH & 255)};
     diff = 0; for (i = 0; i < FW * FH; i++) if (cfb[i] != fbuf[i]) diff++;
     if (!diff) break;
@@ -935,7 +939,7 @@ static int run_fragment(unsigned seed, int ypct) {
   fflush(stdout);
 done:
   close(fd);
-  { int w = 0; while (g_gone < g_new && w++ < 4000) usleep(500); }
+  { int w = 0; while (g_gone < g_new && w++ < sp(4000)) usleep(500); }
   phase("shutdown", 25);
   LIBCALL(rfbShutdownServer(S, TRUE));
   phase("cleanup", 25);
@@ -974,7 +978,7 @@ static void run_case(char *line) {
   { /* the child has its own watchdog (alarm); under TSan a signal may never be delivered when every
        thread is blocked, so the parent bounds the case as well */
     int waited = 0, r;
-    while ((r = waitpid(pid, &status, WNOHANG)) == 0 && waited < 3000) { usleep(100000); waited++; }
+    while ((r = waitpid(pid, &status, WNOHANG)) == 0 && waited < sp(3000)) { usleep(100000); waited++; }
     if (r == 0) { kill(pid, SIGKILL); while (waitpid(pid, &status, 0) < 0 && errno == EINTR) ; printf("\n#hang phase=%s (killed by the parent)\nresult hang=1\n", "unknown"); fflush(stdout); return; }
   }
   if (WIFEXITED(status) && WEXITSTATUS(status) == 3) printf("result hang=1\n");
